@@ -19,8 +19,12 @@ ASSUMPTIONS = [
     "kernel theorems hold for all register values and all data words (2^11, 2^24, 2^48, 2^64 points) of the equations regenerated from /repo on this run",
     "module wrappers (clear/advance priority, output reversal) are modelled in Model/Crc.v; USBDataPacketCRC's model has the unbounded theorem "
     "crc16mod_standard; all three wrappers are tied by simulator correspondence, and their `crc` output cones by affine reflection",
+    "the consequence clause 'a packet is accepted exactly when its check field is correct' depends on how a receiver drives the CRC units (clear/advance "
+    "policy); for the SuperSpeed data packet receiver (header CRC5/CRC16 + payload CRC32 with every tail length) it is checked here too, with C40's "
+    "complete DataPacketReceiver target and specification parser (reference CRCs) as oracle over simulator traces incl. aborted and back-to-back "
+    "packets; the kernel-checked lock-step for that receiver is C40's, the USB2 receivers' acceptance is C01/C02's",
 ]
-TIE_IMPORTS = "From LunaLib Require Import Affine.\nFrom LunaModel Require Import Crc Crc_proofs.\nRequire Import Run.Gen_kernels.\n"
+TIE_IMPORTS = "From LunaLib Require Import Affine.\nFrom LunaModel Require Import Crc Crc_proofs DataRx.\nRequire Import Run.Gen_kernels.\n"
 
 
 # ---------------------------------------------------------------------------------------------
@@ -48,11 +52,20 @@ def _usb3_crc32():
     return d, ins, outs
 
 
+def _drx():
+    from props import C40 as _c40
+    t = Target("drx_full", _c40._build(1024, False, True)); t.params = dict(kind="full", lw=11, hd=True)
+    return t
+
+
 def targets(tier):
-    return [Target("crc16_usb2", _usb2_crc16), Target("crc16_usb3", _usb3_crc16), Target("crc32_usb3", _usb3_crc32)]
+    return [Target("crc16_usb2", _usb2_crc16), Target("crc16_usb3", _usb3_crc16), Target("crc32_usb3", _usb3_crc32), _drx()]
 
 
 def traces(target, rng, tier):
+    if target.name == "drx_full":
+        from props import C40 as _c40
+        return _c40.traces(target, rng, tier)
     n = 25 if tier == "quick" else 150
     out = []
     for _ in range(n):
@@ -151,8 +164,11 @@ def _confirm(g, poly, W, D, kind):
 
 
 def obligations(targets, tier):
-    t2, t3, t32 = targets
-    obs = []
+    t2, t3, t32, tdrx = targets
+    obs = [tie.cmon("accept_drx_full", tdrx, mon="(drx_spec_mon crc16_hdr crc32_usb 11 true)", m0="1",
+                    describe="complete DataPacketReceiver (real CRC units): packet_good/packet_bad and the delivered payload are those of the "
+                             "specification parser with the reference bit-serial CRCs, over simulator traces (every tail length, corrupted check "
+                             "fields, aborted payloads followed by good packets, back-to-back packets)")]
     for g, poly, W, D in _STEP:
         n = W + D
         obs.append(tie.affine(f"ob_{g}", xt=g, nvars=n,
